@@ -69,7 +69,7 @@ func H_C07_fail() {
 		vassert(c.method == method, "wrong-handler")
 		vassert(c.ctxs >= i+1, "plugin-called-without-timeout-context")
 	}
-	if kind == errHandler {
+	if kind == errHandler || kind == errHandlerStatus {
 		cover("veto")
 		vassert(err != nil, "handler-error-swallowed")
 		vassert(err == eps[pos].failE, "handler-error-not-returned-unchanged")
